@@ -186,6 +186,10 @@ class _Obj:
         return self.label
 
 
+class _Done(Exception):
+    pass
+
+
 class _LinkInterp:
     """Executes the straight-line / if-else statements that link layers (attribute stores, name bindings, `is None` / `== k`
     tests, constructor and .copy() calls creating fresh layers) on a small heap."""
@@ -195,6 +199,9 @@ class _LinkInterp:
         self.fresh = []
         self.methods = methods or {}      # methods of the owner's class: a helper that does the linking is executed too
         self.depth = depth
+        self.whole = False                # whole-function mode (copy methods): loops, comprehensions and constructors are followed
+        self.sources = []
+        self.returned = None
 
     def new(self, label):
         o = _Obj(label)
@@ -220,9 +227,63 @@ class _LinkInterp:
             fn = norm(n.func)
             if fn.endswith('.copy') or fn.split('.')[-1] in ('CliffordLayer', 'MeasureLayer'):
                 o = self.new('new%d' % len(self.fresh))
+                if self.whole and fn.endswith('.copy') and isinstance(n.func, ast.Attribute):
+                    try:
+                        src = self.value(n.func.value)
+                    except Undecidable:
+                        src = None
+                    if any(src is x for x in self.sources):
+                        o.attrs['_copy_of'] = [k for k, x in enumerate(self.sources) if x is src][0]
                 self.fresh.append(o)
                 return o
+            if fn.split('.')[-1] in ('CliffordCircuit', 'Circuit') and self.whole:
+                # what the constructor leaves: one empty placeholder layer that is both first and last
+                c = _Obj('circuit')
+                ph = self.new('placeholder')
+                c.attrs.update(first_layer=ph, last_layer=ph, forward_map=None, backward_map=None)
+                return c
+            if self.whole and isinstance(n.func, ast.Attribute) and n.func.attr == 'layers_forward' and not n.args:
+                return list(self.sources)
+            if self.whole and fn == 'enumerate' and len(n.args) == 1:
+                return list(enumerate(self.value(n.args[0])))
+            if self.whole and fn == 'zip':
+                return list(zip(*[self.value(a) for a in n.args]))
+            if self.whole and fn in ('list', 'tuple') and len(n.args) == 1:
+                return list(self.value(n.args[0]))
+            if self.whole and fn == 'len' and len(n.args) == 1:
+                return len(self.value(n.args[0]))
             raise Undecidable('call %s' % fn)
+        if self.whole and isinstance(n, (ast.ListComp, ast.GeneratorExp)) and len(n.generators) == 1 and not n.generators[0].ifs:
+            g = n.generators[0]
+            out = []
+            for v in self.value(g.iter):
+                self.bind(g.target, v)
+                out.append(self.value(n.elt))
+            return out
+        if self.whole and isinstance(n, ast.Subscript):
+            b = self.value(n.value)
+            if isinstance(b, list):
+                if isinstance(n.slice, ast.Slice):
+                    lo = None if n.slice.lower is None else self.value(n.slice.lower)
+                    hi = None if n.slice.upper is None else self.value(n.slice.upper)
+                    st_ = None if n.slice.step is None else self.value(n.slice.step)
+                    return b[slice(lo, hi, st_)]
+                k = self.value(n.slice)
+                if isinstance(k, int):
+                    try:
+                        return b[k]
+                    except IndexError:
+                        raise Undecidable('index out of range')
+            raise Undecidable('subscript %s' % norm(n))
+        if self.whole and isinstance(n, ast.UnaryOp) and isinstance(n.op, ast.USub):
+            return -self.value(n.operand)
+        if self.whole and isinstance(n, (ast.Tuple, ast.List)):
+            return [self.value(e) for e in n.elts]
+        if self.whole and isinstance(n, ast.BinOp) and isinstance(n.op, (ast.Add, ast.Sub)):
+            a, b = self.value(n.left), self.value(n.right)
+            if isinstance(a, int) and isinstance(b, int):
+                return a + b if isinstance(n.op, ast.Add) else a - b
+            raise Undecidable('arithmetic')
         if isinstance(n, ast.Compare) and len(n.ops) == 1:
             a, b = self.value(n.left), self.value(n.comparators[0])
             op = n.ops[0]
@@ -242,7 +303,26 @@ class _LinkInterp:
             return all(vals) if isinstance(n.op, ast.And) else any(vals)
         raise Undecidable('expression %s' % norm(n))
 
+    def bind(self, t, v):
+        if isinstance(t, ast.Name):
+            self.env[t.id] = v
+        elif isinstance(t, (ast.Tuple, ast.List)):
+            vs = list(v)
+            if len(vs) != len(t.elts):
+                raise Undecidable('unpack')
+            for a, b in zip(t.elts, vs):
+                self.bind(a, b)
+        else:
+            raise Undecidable('loop target')
+
     def store(self, t, v):
+        if isinstance(t, (ast.Tuple, ast.List)) and self.whole:
+            vs = list(v)
+            if len(vs) != len(t.elts):
+                raise Undecidable('unpack')
+            for a, b in zip(t.elts, vs):
+                self.store(a, b)
+            return
         if isinstance(t, ast.Name):
             self.env[t.id] = v
         elif isinstance(t, ast.Attribute):
@@ -269,7 +349,14 @@ class _LinkInterp:
             elif isinstance(st, ast.Pass):
                 pass
             elif isinstance(st, ast.Return):
+                if self.whole and st.value is not None:
+                    self.returned = self.value(st.value)
+                    raise _Done()
                 return
+            elif isinstance(st, ast.For) and self.whole:
+                for v in self.value(st.iter):
+                    self.bind(st.target, v)
+                    self.run(st.body)
             elif isinstance(st, ast.Expr) and isinstance(st.value, ast.Call) and isinstance(st.value.func, ast.Attribute) \
                     and st.value.func.attr in self.methods and self.depth < 2 and not st.value.keywords:
                 callee = self.methods[st.value.func.attr]
@@ -305,6 +392,33 @@ def check_linked_list(run, f, rule='R10.link'):
     from first_layer and backward from last_layer must be the same sequence, with every new layer in it exactly once."""
     n = 0
     done = set()
+    if f.name == 'copy' and f.cls is not None:
+        # the copy of a circuit: the whole method is executed on a circuit of three layers; the returned circuit must hold the three
+        # copies, in order, in both directions
+        it = _LinkInterp(dict(f.cls.methods))
+        it.whole = True
+        me = _Obj('self')
+        it.sources = [it.new('src%d' % k) for k in range(3)]
+        for a, b in zip(it.sources[:-1], it.sources[1:]):
+            a.attrs['next_layer'], b.attrs['prev_layer'] = b, a
+        me.attrs.update(first_layer=it.sources[0], last_layer=it.sources[-1], forward_map=None, backward_map=None, N=3, device='cpu')
+        it.env['self'] = me
+        try:
+            try:
+                it.run(f.node.body)
+            except _Done:
+                pass
+            res = it.returned
+            if not isinstance(res, _Obj):
+                raise Undecidable('no circuit returned')
+            want = it.fresh[:]
+            ok, fw, bw = _chain_ok(res, want)
+            ok = ok and len(want) == 3 and [o.attrs.get('_copy_of') for o in fw] == [0, 1, 2]
+            run.check(ok, rule, f, 'copy of a three-layer circuit', 'copying three layers: read forward from first_layer the chain of the copy is %s, read backward from '
+                      'last_layer it is %s; both must be the three copied layers in order (next_layer / prev_layer / first_layer / last_layer must all be set)' % (fw, bw))
+            return 1
+        except Undecidable:
+            pass               # not executable as a whole: the link blocks are judged one by one below
     for st, ctx in walk(f.node):
         if not (isinstance(st, ast.Assign) and any(isinstance(t, ast.Attribute) and t.attr == 'last_layer' for t in st.targets)
                 and not (isinstance(st.value, ast.Attribute) and st.value.attr == 'first_layer')):
